@@ -11,8 +11,9 @@ KNOWN = os.path.join(VERIF, 'known_findings.json')
 
 
 class Oblig:
-    def __init__(s, name, pre, post_fn, lane=None, rename=None, region_args=None, kind='spec'):
+    def __init__(s, name, pre, post_fn, lane=None, rename=None, region_args=None, kind='spec', replay_fn=None):
         s.name = name; s.pre = pre; s.post_fn = post_fn; s.lane = lane; s.rename = rename
+        s.replay_fn = replay_fn       # optional custom native confirmation: (model, run, rdir) -> (True violated | False spurious | None no replay, info dict)
         s.region_args = region_args   # operands handed to known-finding region predicates
         s.kind = kind
 
@@ -63,6 +64,13 @@ def get_mod(path):
 
 def native_res(k, raw):
     """raw bytes of the native return value -> structure shaped like harness.result_lanes with concrete values"""
+    if getattr(raw, 'mem', None):
+        mem = raw.mem
+        val = native_res(k, bytes(raw))
+        def byte(arg, off):
+            lo, bs = mem[arg]
+            return bs[off - lo]
+        return harness.MemView(val, byte)
     rk, rty = k.ret
     if rk == 'v':
         w = TYPES[rty][1]; n = lanes(rty, k.arch)
@@ -82,6 +90,12 @@ def native_res(k, raw):
     return None
 
 
+class NativeRaw(bytes):
+    """native return bytes + dumped memory windows {arg: (lo offset, bytes)}"""
+    def __new__(cls, b):
+        o = bytes.__new__(cls, b); o.mem = {}; return o
+
+
 REPLAY_MAIN = r'''
 #include <cstdio>
 #include <cstring>
@@ -97,7 +111,7 @@ int main(){
 
 def replay_source(k, inputs):
     """C++ program calling the wrapper on the model's inputs; prints result bytes as hex"""
-    decl = []; callargs = []
+    decl = []; callargs = []; ptrs = []
     for (kind, ty), nm in zip(k.args, 'abcdefgh'):
         if kind == 'v':
             w = TYPES[ty][1]; bs = b''.join(int(v).to_bytes(w // 8, 'little') for v in inputs[nm])
@@ -118,12 +132,35 @@ def replay_source(k, inputs):
             w = TYPES[ty][1]; bs = int(inputs[nm]).to_bytes(w // 8, 'little')
             decl.append('  static const unsigned char %s_raw[] = {%s};' % (nm, ','.join(str(x) for x in bs)))
             callargs.append('mk<%s>(%s_raw)' % (TYPES[ty][0], nm))
+        elif kind in ('p', 'q', 'x'):
+            v = inputs[nm]
+            if not isinstance(v, dict):
+                callargs.append('%dULL' % v); continue
+            # a page-aligned arena; the pointer gets the model's offset within a 4096-byte page, bytes are placed at their offsets
+            lo = min(list(v['bytes']) + [0]); hi = max(list(v['bytes']) + [0]) + 1
+            pad = 4096 * (1 + (-lo + 4095) // 4096)
+            size = pad + 4096 + hi + 4096
+            pos = pad + (v['base'] % 4096)
+            decl.append('  alignas(4096) static unsigned char %s_buf[%d]; std::memset(%s_buf, 0xA5, sizeof(%s_buf));' % (nm, size, nm, nm))
+            for o, b in sorted(v['bytes'].items()):
+                decl.append('  %s_buf[%d] = %d;' % (nm, pos + o, b))
+            cty = (TYPES[ty][0] if ty in TYPES else ty) if kind != 'x' else None
+            if kind == 'x':
+                cty = ty.rsplit(' ', 1)[0].replace('const', '').replace('*', '').strip()
+            callargs.append('(%s*)(%s_buf + %d)' % (cty, nm, pos))
+            ptrs.append((nm, pos, lo, hi))
         else:
             return None
     rk = k.ret[0]
-    if rk == 'void': return None
-    call = '  auto r = %s(%s);\n  unsigned char out[sizeof(r)]; std::memcpy(out, &r, sizeof(r));\n  for (size_t i = 0; i < sizeof(r); ++i) std::printf("%%02x", out[i]);\n  std::printf("\\n");' % (k.name, ', '.join(callargs))
-    return gen.PRELUDE + k.cpp() + '\n' + REPLAY_MAIN % dict(decl='\n'.join(decl), call=call)
+    if rk == 'void':
+        call = '  %s(%s);\n  std::printf("\\n");' % (k.name, ', '.join(callargs))
+    else:
+        call = '  auto r = %s(%s);\n  unsigned char out[sizeof(r)]; std::memcpy(out, &r, sizeof(r));\n  for (size_t i = 0; i < sizeof(r); ++i) std::printf("%%02x", out[i]);\n  std::printf("\\n");' % (k.name, ', '.join(callargs))
+    for nm, pos, lo, hi in ptrs:
+        # dump a window around the pointer: [lo-128, hi+128)
+        call += '\n  std::printf("MEM %s %d ");  for (int i = %d; i < %d; ++i) std::printf("%%02x", %s_buf[i]);  std::printf("\\n");' % (nm, lo - 128, pos + lo - 128, pos + hi + 128, nm)
+    extra = k.meta.get('replay_extra', '')
+    return gen.PRELUDE + k.cpp() + '\n' + extra + '\n' + REPLAY_MAIN % dict(decl='\n'.join(decl), call=call)
 
 
 def native_run(k, inputs, outdir, tag='replay'):
@@ -146,7 +183,22 @@ def native_run(k, inputs, outdir, tag='replay'):
     except subprocess.TimeoutExpired:
         return None, 'timeout'
     if q.returncode != 0: return None, 'exit %d' % q.returncode
-    return bytes.fromhex(q.stdout.strip()), 'ok'
+    lines = q.stdout.split('\n')
+    raw = NativeRaw(bytes.fromhex(lines[0].strip()))
+    for l in lines[1:]:
+        if l.startswith('MEM '):
+            _, nm, lo, hx = l.split(' ', 3)
+            raw.mem[nm] = (int(lo), bytes.fromhex(hx.strip()))
+    return raw, 'ok'
+
+
+def show_inputs(inputs):
+    out = {}
+    for a, v in inputs.items():
+        if isinstance(v, list): out[a] = [hex(x) if not isinstance(x, bool) else x for x in v]
+        elif isinstance(v, dict): out[a] = dict(base=hex(v['base']), bytes=' '.join('%d:%02x' % (o, b) for o, b in sorted(v['bytes'].items())[:96]))
+        else: out[a] = v
+    return out
 
 
 def subst_model(expr, model):
@@ -256,11 +308,20 @@ def decide_one(dec, rec, k, run, ob, base, pre, goal, known, reported_known, job
             continue
         if ubhit:
             # still failing: believe it only if the native code reproduces it
-            inputs = harness.model_inputs(m, run.desc)
+            inputs = harness.model_inputs(m, run.desc, run.ex)
             rdir = os.path.join(job['replay_root'], '%s__%s' % (k.name, re.sub(r'\W+', '_', name))[:120])
-            raw, why = native_run(k, inputs, rdir)
+            if ob.replay_fn is not None:
+                verdict, info = ob.replay_fn(m, run, rdir)
+                if verdict:
+                    cex = dict(where=name, replay=rdir, inputs=info.get('inputs', {}), native=info.get('native', ''), ub=sorted(set(ubhit)))
+                    json.dump(dict(kernel=k.name, obligation=name, property=job['prop'], **info), open(os.path.join(rdir, 'counterexample.json'), 'w'), indent=1, default=str)
+                    rec['violations'].append(cex)
+                    return fin('violated')
+                raw = None
+            else:
+                raw, why = native_run(k, inputs, rdir)
             if raw is not None and eval_post_native(ob, native_res(k, raw), m) is False:
-                cex = dict(where=name, inputs={a: (v if not isinstance(v, list) else [hex(x) if not isinstance(x, bool) else x for x in v]) for a, v in inputs.items()}, replay=rdir, native=raw.hex(), ub=sorted(set(ubhit)))
+                cex = dict(where=name, inputs=show_inputs(inputs), replay=rdir, native=raw.hex(), ub=sorted(set(ubhit)))
                 json.dump(dict(kernel=k.name, obligation=name, inputs=cex['inputs'], native_result=raw.hex(), property=job['prop'], ub=cex['ub']), open(os.path.join(rdir, 'counterexample.json'), 'w'), indent=1)
                 rec['violations'].append(cex)
                 return fin('violated')
@@ -269,12 +330,23 @@ def decide_one(dec, rec, k, run, ob, base, pre, goal, known, reported_known, job
             if attempts > 6:
                 rec['undecided'].append(name + ' (ub regions)'); return fin('undecided')
             continue
-        inputs = harness.model_inputs(m, run.desc)
+        inputs = harness.model_inputs(m, run.desc, run.ex)
         rdir = os.path.join(job['replay_root'], '%s__%s' % (k.name, re.sub(r'\W+', '_', name))[:120])
         runk = k
+        if ob.replay_fn is not None:
+            verdict, info = ob.replay_fn(m, run, rdir)
+            cex = dict(where=name, replay=rdir, inputs=info.get('inputs', {}), native=info.get('native', ''), why=info.get('why'))
+            if verdict is None:
+                rec['unconfirmed'].append(cex); return fin('unconfirmed')
+            os.makedirs(rdir, exist_ok=True)
+            json.dump(dict(kernel=k.name, obligation=name, property=job['prop'], **{kk: vv for kk, vv in info.items()}), open(os.path.join(rdir, 'counterexample.json'), 'w'), indent=1, default=str)
+            if verdict:
+                rec['violations'].append(cex); return fin('violated')
+            rec.setdefault('spurious', []).append(cex)
+            rec['undecided'].append(name + ' (model does not reproduce natively)'); return fin('undecided')
         # prefer a member the host can execute
         raw, why = native_run(runk, inputs, rdir)
-        cex = dict(where=name, inputs={a: (v if not isinstance(v, list) else [hex(x) if not isinstance(x, bool) else x for x in v]) for a, v in inputs.items()}, replay=rdir)
+        cex = dict(where=name, inputs=show_inputs(inputs), replay=rdir)
         if raw is None:
             cex['why'] = why
             rec['unconfirmed'].append(cex)
@@ -493,6 +565,9 @@ def finish(prop, P, tier, seed, kernels, dropped, missing, recs, wall, t_lower, 
     for l in lines: print(l)
     print('%s %s: wrappers=%d bodies=%d obligations=%d discharged=%d undecided=%d unsupported=%d errors=%d violations=%d solver=%.1fs wall=%.1fs' % (
         prop, tier, len(kernels), len(recs), tot['obligations'], tot['discharged'], len(undec), len(unsupported), len(errors), nviol, tot['solver_s'], wall))
+    if os.environ.get('XV_PROF'):
+        for r in sorted(recs, key=lambda r: -r.get('wall_s', 0))[:15]:
+            print('PROF %-40s wall=%.1f enc=%.1f solver=%.1f obl=%d search=%d steps=%d' % (r['kernel'], r.get('wall_s', 0), r['enc_s'], r['solver_s'], r['obligations'], r['by_search'], r['steps']))
     if errors:
         for e in errors[:5]: print('INTERNAL-ERROR %s: %s' % e, file=sys.stderr)
         return 3
